@@ -215,3 +215,50 @@ func VP_DM_e2e() {
 	vpCheckImage(code, e, vpDMInterleavedECC(e, full), scheme)
 	vpCover("accepted", true)
 }
+
+
+// C15 / C16: purity and lock discipline
+func VP_DM_pure() {
+	n := vpConfig("n")
+	content := vpString("c", n)
+	vpTrackGlobals()
+	a, errA := Encode(content)
+	_, _ = Encode("some other, longer content 0123456789")
+	b, errB := Encode(content)
+	vpAssert((errA == nil) == (errB == nil), "the same call succeeds or fails the same way every time")
+	if errA == nil && errB == nil {
+		vpAssert(a.Bounds() == b.Bounds() && a.Content() == b.Content(), "the same call returns the same barcode whatever was encoded before")
+		if a.Bounds() == b.Bounds() {
+			for x := 0; x < a.Bounds().Dx(); x++ {
+				for y := 0; y < a.Bounds().Dy(); y++ {
+					vpAssert(a.At(x, y) == b.At(x, y), "the same call returns the same pixels whatever was encoded before")
+				}
+			}
+		}
+	}
+	vpAssert(vpGlobalWrites() == 0, "no package-level state is written outside the generator-polynomial cache lock")
+	vpCover("reached", true)
+}
+
+func VP_DM_rslock() {
+	s1, s2 := codeSizes[vpConfig("s1")], codeSizes[vpConfig("s2")]
+	mk := func(s *dmCodeSize) []byte {
+		d := make([]byte, s.DataCodewords())
+		for i := range d {
+			d[i] = byte(17*i + 3)
+		}
+		return d
+	}
+	fresh := newErrorCorrection().calcECC(mk(s2), s2)
+	vpTrackGlobals()
+	_ = ec.calcECC(mk(s1), s1)
+	got := ec.calcECC(mk(s2), s2)
+	vpAssert(len(got) == len(fresh), "codeword count does not depend on history")
+	for i := range got {
+		if i < len(fresh) {
+			vpAssert(got[i] == fresh[i], "codewords from the shared encoder equal those of a fresh encoder")
+		}
+	}
+	vpAssert(vpGlobalWrites() == 0, "the shared generator cache is only written while its mutex is held")
+	vpCover("reached", true)
+}
